@@ -82,6 +82,9 @@ bool splinetable<Alloc>::read_key(const char* key, std::string& result) const{
 template<typename Alloc>
 template<typename T>
 bool splinetable<Alloc>::write_key(const char* key, const T& value){
+	//an empty table owns no storage, and its destructor releases none
+	if(ndim==0)
+		throw std::runtime_error("splinetable contains no data, cannot set a key");
 	//check if the key is allowed
 	if (reservedFitsKeyword(key))
 		throw std::runtime_error("Cannot set key with reserved name "+std::string(key));
